@@ -342,6 +342,8 @@ func init() {
 			{Dir: "bech32", Name: "ZZ_selfcheck_bech32", Reach: []string{"end"}},
 			{Dir: "base58", Name: "ZZ_C07_b58_bytes", Variant: "bytes<=5", Reach: []string{"end"}, Tweak: realB58("maxbytes", 5)},
 			{Dir: "base58", Name: "ZZ_C07_b58_chars", Variant: "chars<=4", Reach: []string{"end", "foreign"}, Tweak: realB58("maxchars", 4)},
+			{Dir: "base58", Name: "ZZ_C07_b58_foreign", Variant: "bytes<=3", Tiers: "quick", Reach: []string{"end"}, Tweak: realB58("maxchars", 3)},
+			{Dir: "base58", Name: "ZZ_C07_b58_foreign", Variant: "bytes<=5", Tiers: "thorough", Reach: []string{"end"}, Tweak: realB58("maxchars", 5)},
 			{Dir: "base58", Name: "ZZ_C07_check", Reach: []string{"roundtrip", "accepted", "rejected"}, Tweak: b58Stubs("maxpayload", 6, "maxdecoded", 8)},
 			{Dir: "bech32", Name: "ZZ_C07_bech32_roundtrip", Variant: "hrp<=2,data<=3", Reach: []string{"end"}, Tweak: params(false, "maxhrp", 2, "maxdata", 3)},
 			{Dir: "bech32", Name: "ZZ_C07_bech32_strict", Variant: "hrp<=2,data<=2", Reach: []string{"accepted", "rejected"}, Tweak: params(false, "maxhrp", 2, "maxdata", 2)},
@@ -402,7 +404,7 @@ func init() {
 		"Base58Check is checked on an abstract Base58 boundary (recording stub), double-SHA256 uninterpreted",
 		"bech32 reference: transcription of the BIP173 reference code in harness/bech32/c07.go",
 	}, []string{"byte strings / character strings longer than the tier bound", "ConvertBits inverse for pairs other than 8<->5"},
-		"base58: <=5 bytes / <=4 characters; Base58Check payload <=6; bech32 hrp <=2 chars, data <=3 symbols, every rejection rule behind the checksum wall (case, unprintable, empty hrp, short data, foreign data char), lengths 89..92; ConvertBits <=4 bytes / <=5 groups, all (from,to) in 0..9", "base58 <=10 bytes / <=8 characters; bech32 hrp<=4, data <=10")
+		"base58: <=5 bytes / <=4 characters (Int mode, ASCII), every string of <=3 arbitrary bytes containing a foreign byte (bit-vector mode, UTF-8 sequences included); Base58Check payload <=6; bech32 hrp <=2 chars, data <=3 symbols, every rejection rule behind the checksum wall (case, unprintable, empty hrp, short data, foreign data char), lengths 89..92; ConvertBits <=4 bytes / <=5 groups, all (from,to) in 0..9", "base58 <=10 bytes / <=8 characters; bech32 hrp<=4, data <=10")
 	meta("C08", []string{
 		"dependency code (encoding/json, OpenBazaar jsonpb, wire decoders, txscript, base64/hex decoders) is outside; where a harness needs its result it is a stub returning an arbitrary value",
 		"an allocation sized by a symbolic count must not exceed 4096 elements for inputs of <= 6 bytes (gcs harnesses); other allocations have concrete sizes per path",
